@@ -519,6 +519,21 @@ fn pfam_n(name: &str, n: usize) -> PFam {
     f
 }
 
+/// A long pattern e^k z (its only rare byte at offset k) next to a short
+/// pattern with another rare byte: the rare-byte prefilter's offset table
+/// holds u8 shifts, and patterns of >= 256 bytes switch that prefilter off.
+fn pfam_long(name: &str, k: usize) -> PFam {
+    let mut p = vec![b'e'; k];
+    p.push(b'z');
+    pfam(name, vec![p, b("ttttq")], false)
+}
+
+/// Families with a pattern longer than 128 bytes get a reduced set of cores
+/// and template offsets (each search walks the whole haystack).
+pub fn is_long_family(pats: &Pats) -> bool {
+    pats.iter().any(|p| p.len() > 128)
+}
+
 /// Families aimed at each prefilter variant (memmem, start bytes 1/2/3, rare
 /// bytes 1/2/3, packed) and at "no prefilter"; several per variant so that a
 /// change of the selection heuristics moves coverage instead of removing it.
@@ -559,6 +574,21 @@ pub fn prefilter_families() -> Vec<PFam> {
         pfam_n("n65-packed", 65),
         pfam_n("n129-packed", 129),
         pfam_n("n140-packed", 140),
+        // long patterns around the 256-byte limits of the rare-byte offset
+        // table: rare byte at offset 253..=257 and 300, a long pattern in
+        // the middle of the list, exactly 256 bytes
+        pfam_long("long-rare-253", 253),
+        pfam_long("long-rare-254", 254),
+        pfam_long("long-rare-255", 255),
+        pfam_long("long-rare-256", 256),
+        pfam_long("long-rare-257", 257),
+        pfam_long("long-rare-300", 300),
+        pfam("long-mid-256", vec![b("foo"), vec![b'b'; 256], b("quux")], false),
+        pfam("long-mid-300-rare-late", vec![b("#define"), { let mut p: Vec<u8> = b("the quick brown fox ").iter().cycle().take(280).cloned().collect(); p.extend_from_slice(b"#42"); p }], false),
+        pfam("long-single-256", vec![b("ab").iter().cycle().take(256).cloned().collect()], false),
+        pfam("ci-long-single-256", vec![b("ab").iter().cycle().take(256).cloned().collect()], true),
+        pfam("ci-long-first-256", vec![b("ab").iter().cycle().take(256).cloned().collect(), b("xy"), b("qr"), b("jk"), b("vw")], true),
+        pfam("ci-letterfree-first", vec![b("@"), b("["), b("`"), b("{"), b("xy")], true),
         pfam("ci-rare-offset", vec![b("aq"), b("bbbbq"), b("ccq")], true),
         pfam("ci-rare-offset-2", vec![b("zA"), b("eeeZa"), b("ttza")], true),
         pfam("ci-start", vec![b("ab"), b("ac")], true),
@@ -712,6 +742,52 @@ fn ac_case(engine_mode: &str, pats: &Pats, kind: Kind, ci: bool, ak: AhoCorasick
 /// cores for prefilter families: as for packed, plus two cores separated by a
 /// gap (trigger byte alone before a true match at every small distance).
 fn pcores(f: &PFam, thorough: bool) -> Vec<Vec<u8>> {
+    if is_long_family(&f.pats) {
+        let fl = clean_filler(&f.pats);
+        let sig = universe::sigma(&f.pats, f.ci);
+        let mut v: Vec<Vec<u8>> = vec![];
+        for p in f.pats.iter().take(5) {
+            v.push(p.clone());
+            let mut pp = p.clone();
+            pp.extend_from_slice(p);
+            v.push(pp);
+            for k in [0, p.len() / 2, p.len() - 1] {
+                let mut nm = p.clone();
+                nm[k] ^= 0x01;
+                v.push(nm);
+            }
+            for &c in sig.iter().take(3) {
+                for d in [0usize, 1, 5] {
+                    let mut x = vec![c];
+                    x.extend(std::iter::repeat(fl).take(d));
+                    x.extend_from_slice(p);
+                    v.push(x);
+                }
+            }
+            for q in f.pats.iter().take(5) {
+                // an occurrence of p, a gap, an occurrence of q
+                let mut x = p.clone();
+                x.extend(std::iter::repeat(fl).take(3));
+                x.extend_from_slice(q);
+                v.push(x);
+            }
+            if f.ci {
+                let up: Vec<u8> = p.iter().map(|&x| crate::spec::opposite(x)).collect();
+                v.push(up);
+                let mut mix = p.clone();
+                mix[0] = crate::spec::opposite(mix[0]);
+                v.push(mix);
+                let mut mix = p.clone();
+                let l = mix.len() - 1;
+                mix[l] = crate::spec::opposite(mix[l]);
+                v.push(mix);
+            }
+        }
+        let _ = thorough;
+        v.sort();
+        v.dedup();
+        return v;
+    }
     let base = Fam { name: f.name.clone(), pats: f.pats.clone(), alpha: f.alpha.clone() };
     let mut v = cores(&base, thorough);
     let fl = clean_filler(&f.pats);
@@ -784,9 +860,16 @@ pub fn run_c05(rep: &Report) -> i32 {
         let mask = f.pats.iter().map(|p| p.len()).min().unwrap().min(4);
         let mut spans = vec![];
         let step = if f.pats.len() > 24 && !t { 4 } else { 1 };
+        let long = is_long_family(&f.pats);
         for core in cs.iter().step_by(step) {
             st.add("cores", 1);
             templates(core, &fills, mask, t, |h, i, _| {
+                if long {
+                    let j = h.len() - i - core.len();
+                    if !([0usize, 1, 2, 3, 15, 16, 17, 32, 33].contains(&i) && [0usize, 1, 17].contains(&j)) {
+                        return;
+                    }
+                }
                 span_forms(h.len(), i, core.len(), false, &mut spans);
                 for &(s, e) in &spans {
                     for anchored in [false, true] {
